@@ -235,6 +235,67 @@ Proof.
 Qed.
 End TextReader.
 
+(* ================================================================== PTS at byte level *)
+From PF Require Formats.Pts Formats.PtsProofs.
+Section PtsText.
+Import Formats.Pts.
+Variable cnt : list N -> option Z.     (* strconv.Atoi on the whole first line: any function *)
+Variable numval : list N -> Z.         (* strconv.ParseFloat on one field (integer-valued in the model): any function *)
+
+(* pts.ReadPointCloud on bytes: the first scanned line is the count, every further line is split into fields *)
+Definition pts_read_text (text : list N) : option pts_result :=
+  match scan text [] with
+  | [] => None
+  | c :: body => pts_read (cnt c) (map (map numval) (map fields_of body))
+  end.
+
+Definition pts_file (ct : list N) (ls : list (list (list N))) : list (list (list N)) := [ct] :: ls.
+
+(* the text of a PTS file cut at a token boundary after the count line (j data lines, m tokens of the next): the
+   byte-level reader sees exactly the token prefix *)
+Theorem pts_text_cut ct ls j m : tok_ok ct -> Forall (Forall tok_ok) ls -> (m <= length (nth j ls []))%nat ->
+  pts_read_text (firstn (boundary (pts_file ct ls) (S j) m) (render (pts_file ct ls)))
+  = pts_read (cnt ct) (pts_prefix (map (map numval) ls) j m).
+Proof.
+  intros Hct Hls Hm. unfold pts_read_text, pts_file, boundary.
+  cbn [firstn nth render flat_map render_line].
+  fold (render (firstn j ls)). fold (render ls).
+  rewrite <- !app_assoc. cbn [app]. rewrite app_length. cbn [length].
+  rewrite <- Nat.add_assoc. rewrite firstn_app_2. rewrite Nat.add_succ_l. fold (boundary ls j m).
+  cbn [firstn]. destruct Hct as [Hne Hsp].
+  rewrite scan_line by (eapply Forall_impl; [|exact Hsp]; apply space_not_nl). cbn [rev app].
+  rewrite text_cut_tokens by assumption.
+  f_equal. unfold token_prefix, pts_prefix. rewrite map_app, firstn_map. f_equal.
+  destruct m; [reflexivity|]. cbn [map].
+  change (@nil Z) with (map numval []). rewrite map_nth. rewrite firstn_map. reflexivity.
+Qed.
+
+(* end to end: every token-boundary cut of the text of a valid PTS file after the count line is rejected, except the
+   one-point file cut after >= 3 fields (a valid shorter file; prefix_pts) *)
+Theorem pts_text_prefix_rejected ct ls n w j m : tok_ok ct -> Forall (Forall tok_ok) ls ->
+  cnt ct = Some (Z.of_nat n) -> PtsProofs.pts_valid n w (map (map numval) ls) -> (j < n)%nat -> (m < w)%nat ->
+  (m <= length (nth j ls []))%nat ->
+  pts_read_text (firstn (boundary (pts_file ct ls) (S j) m) (render (pts_file ct ls))) = None \/
+  (n = 1%nat /\ j = 0%nat /\ (3 <= m)%nat).
+Proof.
+  intros Hct Hls Hc Hv Hj Hmw Hm. rewrite pts_text_cut by assumption. rewrite Hc.
+  apply (PtsProofs.pts_prefix_rejected n w _ j m Hv Hj Hmw).
+Qed.
+
+(* a cut inside or right after the count line: no data line is present, a positive count is not met *)
+Theorem pts_text_count_only ct ls n : tok_ok ct -> cnt ct = Some (Z.of_nat (S n)) ->
+  pts_read_text (firstn (boundary (pts_file ct ls) 0 1) (render (pts_file ct ls))) = None /\
+  pts_read_text (firstn (boundary (pts_file ct ls) 0 0) (render (pts_file ct ls))) = None.
+Proof.
+  intros [Hne Hsp] Hc. unfold pts_read_text, pts_file, boundary. cbn [firstn nth render flat_map render_line length Nat.add].
+  split; [|reflexivity].
+  rewrite <- app_assoc. rewrite <- (Nat.add_0_r (length ct)). rewrite firstn_app_2. cbn [firstn]. rewrite app_nil_r.
+  rewrite scan_no_nl by (eapply Forall_impl; [|exact Hsp]; apply space_not_nl). cbn [rev app].
+  destruct ct as [|b ct']; [congruence|]. cbn [map]. rewrite Hc.
+  unfold pts_read. destruct (Z.of_nat (S n) <? 0)%Z; [reflexivity|]. rewrite Nat2Z.id. reflexivity.
+Qed.
+End PtsText.
+
 (* non-vacuity: "1 2\n3" -- a cut after the first token of the first line, after the line, and the whole text *)
 Example text_cut_example :
   let ls := [[[49]; [50]]; [[51]]] in
